@@ -418,6 +418,8 @@ def print_parse_round_trip(ex):
     sp = z3.BitVec('lm_s', 64)
     pp = Ptr(None, z3.BitVec('lm_pp', 64) if os.environ.get('VERIF_TIER') == 'thorough' else sp + 64)
 
+    TO = 900 if os.environ.get('VERIF_TIER') == 'thorough' else None    # symbolic placement: 70-95 s per lemma on an idle machine
+
     def lay_out(chars):
         m = mem
         if os.environ.get('VERIF_TIER') == 'thorough':
@@ -446,9 +448,9 @@ def print_parse_round_trip(ex):
     out.append(LemmaOb('OffsetDateTime: parse(print(x)) == x [parser precondition]', base, z3.And(*pre)))
     for k, nm in enumerate(('year', 'month', 'day', 'hour', 'minute', 'second')):
         # only the parser clause for this field is needed as a hypothesis
-        out.append(LemmaOb('OffsetDateTime: parse(print(x)) == x [%s]' % nm, [e for l, e in lpost if l == nm] + base, f[k] == g[k], logic=None))
+        out.append(LemmaOb('OffsetDateTime: parse(print(x)) == x [%s]' % nm, [e for l, e in lpost if l == nm] + base, f[k] == g[k], logic=None, timeout=TO))
     out.append(LemmaOb('OffsetDateTime: parse(print(x)) == x [offset]', [e for l, e in lpost if l == 'offset'] + base, goff == off,
-                       cases=[('neg', off < 0), ('nonneg', off >= 0)], logic=None))
+                       cases=[('neg', off < 0), ('nonneg', off >= 0)], logic=None, timeout=TO))
     # --- offset alone, all of +-99:59 ---
     text2 = iso_offset(off)
     m4 = lay_out(text2)
@@ -473,7 +475,7 @@ def print_parse_round_trip(ex):
     for k, nm in enumerate(('year', 'month', 'day', 'hour', 'minute', 'second')):
         out.append(LemmaOb('LocalDateTime: parse(print(x)) == x [%s]' % nm,
                            [e for l, e in lpost3 if l == nm] + [cal.ldt_valid(f), sep3, z3.ULE(sp, z3.BitVecVal((1 << 64) - 400, 64)), sp != 0, z3.ULE(pp.off, z3.BitVecVal((1 << 64) - 400, 64)), pp.off != 0],
-                           byte(r3, k) == f[k], logic=None))
+                           byte(r3, k) == f[k], logic=None, timeout=TO))
     return out
 
 
